@@ -48,6 +48,9 @@ def gen_logical(rng, n=None):
     return members
 
 
+BIG_ROT = [-1]
+
+
 def gen_layout(rng, members, feature):
     streams = [i for i, m in enumerate(members) if m["kind"] in ("file", "symlink")]
     lay = {"crc_place": "sub", "nums_omitted": True, "packcrc": False, "packpos": 0, "dummy": 0, "emptyfile_vector": True,
@@ -93,6 +96,9 @@ def gen_layout(rng, members, feature):
         lay["folders"] = [(c + "+aes", p) for c, p in lay["folders"]]
     elif feature == "nonminimal":
         lay["nonminimal"] = True
+    elif feature == "big-solid":
+        BIG_ROT[0] += 1
+        lay["folders"] = [(["copy", "deflate", "lzma2", "bzip2"][BIG_ROT[0] % 4], streams)] if streams else []
     elif feature == "combo":
         lay["packcrc"] = rng.random() < 0.5
         lay["dummy"] = rng.choice([0, 0, 2, 5])
@@ -121,6 +127,16 @@ def tweak_members(rng, members, feature):
         for m in ms:
             m["ctime"] = rng.randrange(116444736000000000, 159000000000000000)
             m["atime"] = rng.randrange(116444736000000000, 159000000000000000) if rng.random() < 0.5 else None
+    elif feature == "big-solid":
+        # a solid block longer than one 1 MiB read block: members start in one decoded chunk and end in the next
+        files = [m for m in ms if m["kind"] == "file"]
+        while len(files) < 4:
+            nm = "big%d.bin" % len(files)
+            m = {"name": nm, "kind": "file", "data": b"", "attr": FILE_ATTR, "mtime": 130000000000000000, "ctime": None, "atime": None}
+            ms.append(m)
+            files.append(m)
+        for m, n in zip(files, [600000, 600000, 300000, 500000, 37, 70000, 1]):
+            m["data"] = rng.randbytes(n // 2) + bytes(n - n // 2)
     elif feature == "win-attr":
         for m in ms:
             if m["kind"] in ("file", "emptyfile"):
@@ -132,7 +148,7 @@ def tweak_members(rng, members, feature):
 
 FEATURES = ["plain", "multi-folder", "nonsolid", "folder-crc", "folder-crc-solid", "no-crc", "partial-crc", "nums-explicit",
             "no-substreams", "packcrc", "packpos", "dummy", "no-emptyfile-vector", "header-lzma", "header-aes", "aes", "nonminimal",
-            "partial-mtime", "no-mtime", "partial-attr", "no-attr", "ctime-atime", "win-attr", "combo"]
+            "partial-mtime", "no-mtime", "partial-attr", "no-attr", "ctime-atime", "win-attr", "combo", "big-solid"]
 
 
 def _py7zr_read(job):
